@@ -151,6 +151,10 @@ class World:
             self.log.append([i, "chdir"])
         elif k == "eval":
             self.do_eval(i, op)
+        elif k == "illeval":
+            self.do_illeval(i, op)
+        elif k == "touch":
+            self.ensure_proc(op.get("proc", 0))
         elif k == "load":
             self.do_load(i, op)
         else:
@@ -160,6 +164,28 @@ class World:
         sid = self.store_id(info)
         m = self.model(sid)
         return Cones(self.versions[info["ver"]], load_fp=lambda p: m["path_fp"].get(p, "absent"), entry=entry)
+
+    def do_illeval(self, i, op):
+        """Evaluation of an ill-formed entry point: no reference run (plain execution would not terminate)."""
+        info = self.ensure_proc(op.get("proc", 0))
+        prog = self.versions[info["ver"]]
+        fn = op["entry"]
+        if fn not in prog["funcs"]:
+            return
+        f = prog["funcs"][fn]
+        style = op.get("style", "eval")
+        if style == "call" and f["kind"] != "data":
+            style = "eval"
+        entry = ir.modname(prog, f["mod"]) + ":" + fn
+        before = self.store_snapshot(info)
+        out = info["proc"].call({"cmd": "eval", "entry": entry, "style": style, "options": {}})
+        after = self.store_snapshot(info)
+        rec = {"i": i, "op": "illeval", "entry": fn, "style": style, "res": out["res"], "log": out["log"],
+               "expect": op["expect"], "snap_before": before, "snap_after": after,
+               "nstore_calls": sum(1 for c in out["calls"] if c[0] == "store_blob"),
+               "nsync_calls": sum(1 for c in out["calls"] if c[0] == "sync_paths"), "store": self.store_id(info)}
+        self.obs.append(rec)
+        self.log.append([i, "illeval", fn, style, out["res"][:3], out["log"]])
 
     def store_snapshot(self, info):
         """Blobs and committed paths currently in the store (local: directory walk; memory: asked from the process)."""
